@@ -57,7 +57,7 @@ func rangeFor(rng *rand.Rand, tv string, hasLatest bool) string {
 	case 10:
 		return "~>" + parts[0] + "." + parts[1]
 	case 11:
-		return base + " - " + fmt.Sprint(atoi(parts[0])+1)+".9.9"
+		return base + " - " + fmt.Sprint(atoi(parts[0])+1) + ".9.9"
 	}
 	return "<=" + base
 }
@@ -154,9 +154,11 @@ func GenerateStratum(rng *rand.Rand, stratum string) *uni.Universe {
 				if stratum == Collision {
 					a = uni.Pick(rng, "al"+strings.TrimPrefix(q, "@s/"), pkgs[rng.Intn(len(pkgs))], "al")
 				} else {
-					a = uni.Pick(rng, "al"+strings.TrimPrefix(q, "@s/"), "al", "zz")
+					// One alias per target package: a directory name never stands for
+					// two different packages in this stratum.
+					a = "al" + strings.TrimPrefix(q, "@s/")
 				}
-				if !usedAlias[a] && !used[a] {
+				if !usedAlias[a] && !used[a] && a != q {
 					usedAlias[a] = true
 					rq.KnownAs = a
 				}
@@ -165,7 +167,8 @@ func GenerateStratum(rng *rand.Rand, stratum string) *uni.Universe {
 		}
 		// An alias must not coincide with the name of another requirement of
 		// the same version in the base stratum (one directory, one name).
-		if stratum != Collision {
+		// (A package.json has one entry per name, in every stratum.)
+		{
 			for i := range v.Reqs {
 				if a := v.Reqs[i].KnownAs; a != "" && used[a] {
 					v.Reqs[i].KnownAs = ""
